@@ -570,3 +570,109 @@ pub fn table_round_trip(ty: Ty, raws: &[i64], codec: Codec) -> Result<(), (&'sta
         Ty::Oracle => go!(OracleDate::try_from_usecs),
     }
 }
+
+
+// ---------------------------------------------------------------------------
+// A writer of the caller that uses the crate while it is being written to: an auditing or
+// logging `io::Write` that stamps what passes through it with a timestamp of its own, a tee
+// into a second document. Whatever the serializers keep per thread (a memo of the last
+// rendering, a shared buffer, a borrowed cell) is then entered a second time from inside the
+// first use.
+// ---------------------------------------------------------------------------
+
+struct NestingWriter<'a> {
+    out: &'a mut Vec<u8>,
+    ty: Ty,
+    raw: i64,
+    calls: usize,
+    failed: Option<(&'static str, String)>,
+}
+
+impl NestingWriter<'_> {
+    fn nested(&mut self, ty: Ty, raw: i64) {
+        for codec in [Codec::Json, Codec::Bincode] {
+            let mut inner = Vec::new();
+            match encode(ty, raw, codec, &mut inner) {
+                Encoded::Ok => match decode_slice(ty, codec, &inner) {
+                    Decoded::Ok(v) if v == raw => {}
+                    other => {
+                        self.failed.get_or_insert(("roundtrip", format!("the nested {} ({}) value with raw count {} was written as {} and read back as {:?}", ty.name(), codec.name(), raw, show(&inner), other)));
+                    }
+                },
+                Encoded::NotAValue => {}
+                Encoded::Panic(m) => {
+                    self.failed.get_or_insert(("panic", format!("serializing a {} ({}) with raw count {} from inside the writer: {}", ty.name(), codec.name(), raw, m)));
+                }
+                Encoded::Err(e) => {
+                    self.failed.get_or_insert(("serialize_failed", format!("serializing a {} ({}) with raw count {} from inside the writer failed without any fault: {}", ty.name(), codec.name(), raw, e)));
+                }
+            }
+        }
+    }
+}
+
+fn show(b: &[u8]) -> String {
+    match std::str::from_utf8(b) {
+        Ok(s) => format!("{:?}", s),
+        Err(_) => format!("{:02x?}", b),
+    }
+}
+
+impl Write for NestingWriter<'_> {
+    fn write(&mut self, buf: &[u8]) -> std::io::Result<usize> {
+        self.calls += 1;
+        let (ty, raw) = (self.ty, self.raw);
+        self.nested(ty, raw);
+        // and the zero value of every type (raw count 0 is a value of all six)
+        for t in crate::values::ALL_TYPES {
+            self.nested(t, 0);
+        }
+        self.out.extend_from_slice(buf);
+        Ok(buf.len())
+    }
+    fn flush(&mut self) -> std::io::Result<()> {
+        Ok(())
+    }
+}
+
+/// The value (ty, raw) is serialized plainly and through a writer that serializes (ty, inner_raw)
+/// and the zero value of every type on each of its write calls — plainly first (so that the
+/// nested use is the second rendering of the same value in a row) or plainly afterwards. Both
+/// renderings must be the same bytes and read back as the value; nothing may panic or fail.
+pub fn nested_round_trip(ty: Ty, raw: i64, inner_raw: i64, plain_first: bool, codec: Codec) -> Result<(), (&'static str, String)> {
+    let mut plain = Vec::new();
+    let mut through = Vec::new();
+    let mut do_plain = |plain: &mut Vec<u8>| -> Result<bool, (&'static str, String)> {
+        match encode(ty, raw, codec, &mut *plain) {
+            Encoded::Ok => Ok(true),
+            Encoded::NotAValue => Ok(false),
+            Encoded::Panic(m) => Err(("panic", m)),
+            Encoded::Err(e) => Err(("serialize_failed", format!("serialization into memory failed without any fault: {}", e))),
+        }
+    };
+    if plain_first && !do_plain(&mut plain)? {
+        return Ok(());
+    }
+    let mut w = NestingWriter { out: &mut through, ty, raw: inner_raw, calls: 0, failed: None };
+    let r = encode(ty, raw, codec, &mut w);
+    let failed = w.failed.take();
+    match r {
+        Encoded::Ok => {}
+        Encoded::NotAValue => return Ok(()),
+        Encoded::Panic(m) => return Err(("panic", format!("serializing through a writer that serializes another value while it is written to: {}", m))),
+        Encoded::Err(e) => return Err(("serialize_failed", format!("serialization through a writer that serializes another value while it is written to failed without any fault: {}", e))),
+    }
+    if let Some(f) = failed {
+        return Err(f);
+    }
+    if !plain_first && !do_plain(&mut plain)? {
+        return Ok(());
+    }
+    if plain != through {
+        return Err(("layout", format!("written plainly: {}; written through a writer that serializes another value (raw count {}) on each write: {}", show(&plain), inner_raw, show(&through))));
+    }
+    match decode_slice(ty, codec, &through) {
+        Decoded::Ok(v) if v == raw => Ok(()),
+        other => Err(("roundtrip", format!("{} read back as {:?}", show(&through), other))),
+    }
+}
